@@ -401,6 +401,9 @@ def check(an: Analysis) -> None:
     for fi, n in lossy_cache_uses(an):
         ob.inst(fi, n)
         ob.fail(fi, n, "a validator / annotation cache is keyed by a rendering of the annotation: different annotations that print alike (Literal[1] vs Literal['1'], two classes named alike) share a validator - conforming values are rejected and non-conforming ones accepted, depending on definition order")
+    for fi, n, missing in underkeyed_memo_stores(an):
+        ob.inst(fi, n)
+        ob.fail(fi, n, f"a module-level memo is keyed by less than what the stored value depends on (not in the key: {', '.join(missing)}): a later resolution that differs only in those (another class's type arguments, another `Self`) is answered with the first result - conforming values are rejected and non-conforming ones accepted depending on definition order")
     av = prog.fn(f"{VAL}.attribute_validator")
     ga = an.cfg(av)
     ap = av.param_names()[0]
@@ -445,6 +448,29 @@ def lossy_cache_uses(an: Analysis, module_prefix: str = "haiway.state"):
             )
             if rendered:
                 out.append((fi, n))
+    return out
+
+
+def underkeyed_memo_stores(an: Analysis, module_prefix: str = "haiway.state"):
+    """Stores `<module-level container>[key] = value` inside a function where `value` depends on parameters of the
+    function that `key` does not depend on: the memo answers later calls that differ in those parameters with the first result."""
+    out = []
+    for fi in an.prog.scan_functions():
+        if not fi.module.name.startswith(module_prefix):
+            continue
+        d = None
+        for n in fi.own_nodes():
+            if not (isinstance(n, ast.Assign) and len(n.targets) == 1 and isinstance(n.targets[0], ast.Subscript)):
+                continue
+            base = n.targets[0].value
+            if not isinstance(base, ast.Name) or an.prog.is_local(fi, base.id) or base.id not in fi.module.assigns:
+                continue
+            d = d or Deps(an.prog, fi)
+            vp = {x[6:] for x in d.of(n.value) if x.startswith("param:")}
+            kp = {x[6:] for x in d.of(n.targets[0].slice) if x.startswith("param:")}
+            missing = sorted(vp - kp)
+            if missing:
+                out.append((fi, n, missing))
     return out
 
 
